@@ -221,6 +221,7 @@ type runConfig struct {
 	solverMs int
 	verbose  bool
 	noReplay bool
+	splitOnly string
 }
 
 func main() {
@@ -252,6 +253,7 @@ func cmdRun(args []string) int {
 	fs.StringVar(&rc.prop, "prop", "", "property id (C06)")
 	fs.StringVar(&rc.tier, "tier", envOr("VERIF_TIER", "quick"), "quick|thorough")
 	fs.StringVar(&rc.only, "only", "", "regexp restricting harness names")
+	fs.StringVar(&rc.splitOnly, "split", "", "name=value: explore only the jobs with this vxSplit value (debugging; recorded in the evidence)")
 	fs.IntVar(&rc.workers, "workers", 16, "parallel workers")
 	fs.DurationVar(&rc.timeout, "timeout", 0, "wall budget for exploration (0 = tier default)")
 	fs.StringVar(&rc.solver, "solver", "z3", "z3|z3-new|cvc5")
